@@ -59,6 +59,11 @@ pub struct Shm {
     pub abort_prop: [u8; 8],
     pub exit_prop: [u8; 8],
     pub atexit_ran: u32,
+    /// set by the child's SIGSEGV/SIGBUS probe: faulting address and whether a delivery was running
+    pub fault_seen: u32,
+    pub fault_in_handler: u32,
+    pub fault_addr: u64,
+    pub fault_pc: u64,
     pub counters: [u64; N_COUNTERS],
     pub wlen: u32,
     pub slen: u32,
@@ -123,6 +128,10 @@ pub fn reset() {
     s.abort_prop = [0; 8];
     s.exit_prop = [0; 8];
     s.atexit_ran = 0;
+    s.fault_seen = 0;
+    s.fault_in_handler = 0;
+    s.fault_addr = 0;
+    s.fault_pc = 0;
     s.counters = [0; N_COUNTERS];
     s.wlen = 0;
     s.slen = 0;
